@@ -31,6 +31,8 @@ def build():
     U.file(E).item('struct', 'SemanticErrorList')
     U.file(C).item('struct', 'Context')
     U.prelude('contracts/sym.prelude.rs')
+    from units.stdgates import std_gate_spec
+    U.raw(std_gate_spec())
 
     s.impl('SymbolId', [
         ('new', dict(ret='r', props=['C19'], spec='ensures r.0 == 0,')),
@@ -112,6 +114,12 @@ ensures''' + NEWB_POST,
         else { if n == name@ {} else { assert(st0[i].map().contains_key(n)); } }
     }
 }''')])),
+        # flat_map / filter closures with a side effect (`new_binding` in the filter): not verified; what the include needs of it
+        ('standard_library_gates', dict(ret='r', props=['C07', 'C09', 'C13'], trusted=True, note='flat_map / filter closures capturing &mut self',
+                                        spec='''requires old(self).wf(),
+ensures final(self).wf(), final(self).depth() == old(self).depth(),
+    // every gate of the library is bound afterwards (by this call, or it was bound before: then its name is returned)
+    forall|n: Seq<char>| #[trigger] std_gate(n) ==> resolve(final(self).scopes(), n) is Some,''')),
         ('new_binding', dict(ret='r', props=['C19', 'C07', 'C09'], spec='''
 requires old(self).wf(), old(self).room(),
 ensures
@@ -209,6 +217,13 @@ ensures
     r.symbol_table.wf(), r.symbol_table.depth() == 1,                                      //@C03,C07:fresh-context-global-scope-only
     r.semantic_errors.kinds() =~= Seq::<SemanticErrorKind>::empty(), r.semantic_errors.include_errors@.len() == 0,
     r.program.n_stmts() == 0, r.annotations@.len() == 0,                                   //@C11:fresh-context-is-empty''')),
+        # `include "stdgates.inc"`: defines the library unconditionally.  Not verifiable (the Vec<&str> returned by
+        # SymbolTable::standard_library_gates keeps `self.symbol_table` mutably borrowed across the loop, so no invariant can
+        # mention it): trusted, and its text is pinned (contracts/trusted_hashes.json)
+        ('standard_library_gates', dict(props=['C07', 'C09', 'C13'], trusted=True, note='closure chain over a Vec<&str> that keeps self.symbol_table mutably borrowed', spec='''
+requires old(self).symbol_table.wf(),
+ensures final(self).symbol_table.wf(), final(self).symbol_table.depth() == old(self).symbol_table.depth(),
+    forall|n: Seq<char>| #[trigger] std_gate(n) ==> resolve(final(self).symbol_table.scopes(), n) is Some,''')),
         ('push_errors_from_included_file', dict(props=['C11', 'C03'], spec='''
 ensures final(self).semantic_errors.list == old(self).semantic_errors.list,
     final(self).semantic_errors.include_errors@ == old(self).semantic_errors.include_errors@.push(errors),
@@ -261,6 +276,6 @@ ensures
         'derive(Clone/PartialEq/Eq/Debug) on the copied types: structural',
         'SemanticErrorList::insert appends one diagnostic of the given kind (rowan node handle opaque)',
     ]
-    U.not_verified = ['SymbolTable::{standard_library_gates,gates,hardware_qubits,dump} (iterator adapters with closures capturing &mut self)',
+    U.not_verified = ['SymbolTable::{standard_library_gates (trusted contract: binds the whole library),gates,hardware_qubits,dump} (iterator adapters with closures capturing &mut self)',
                       'SymbolErrorTrait / SymbolType impls (closure in Result::map)']
     return U
